@@ -29,6 +29,7 @@ mod indep_formats;
 mod c16;
 mod c01;
 mod c01_getters;
+mod boundary;
 
 use common::Args;
 
